@@ -134,8 +134,55 @@ def run_C06(ctx):
 
 
 # ------------------------------------------------------------------------------------------------ problems (C09, C12)
-def problem_records(ctx, cases, strong_ids=None):
-    """run tasks through the hook, read every emitted problem TEXT back; returns (records, violations, stats)"""
+DEFAULT_FLAGS = {"mu": False, "sequential": False, "simplify": True, "eqbreak": True, "direction": "universal", "bypass": False}
+# (first run: longer problem texts, second run into the SAME directory: same problem names, shorter texts)
+SAVE_PAIRS = [
+    ({"task": "strong", "left": "p(X) :- q(X), not r(X), X > 1, X != 7.\ns(X, Y) :- p(X), q(Y), X < Y + 9.\n", "right": "p(X) :- q(X), not r(X), X >= 2, X != 7.\ns(X, Y) :- p(X), q(Y), X < Y + 9, Y = Y.\n"},
+     {"task": "strong", "left": "p(X) :- q(X).\ns(X, Y) :- p(X), q(Y).\n", "right": "p(X) :- q(X), X = X.\ns(X, Y) :- q(X), q(Y).\n"}),
+    ({"task": "external", "left": "p(X) :- q(X), X > n, X != 100, not aux(X).\naux(X) :- q(X), X < n - 20.\n", "right": "p(X) :- q(X), X >= n + 1, X != 100, X >= n - 20.\n",
+      "ug": "input: n -> integer.\ninput: q/1.\noutput: p/1.\n"},
+     {"task": "external", "left": "p(X) :- q(X).\n", "right": "p(X) :- q(X), X = X.\n", "ug": "input: q/1.\noutput: p/1.\n"}),
+    ({"task": "external", "spec": "spec: forall X (p(X) <-> exists N$i (X = N$i and q(X) and N$i > 0 and N$i != 55 and N$i < 1000)).\n", "right": "p(X) :- q(X), X > 0, X != 55, X < 1000.\n",
+      "ug": "input: q/1.\noutput: p/1.\n"},
+     {"task": "external", "spec": "spec: forall X (p(X) <-> q(X)).\n", "right": "p(X) :- q(X).\n", "ug": "input: q/1.\noutput: p/1.\n"}),
+]
+
+
+def saved_overrides(ctx):
+    """`--save-problems` twice into one directory: the files present after the second run, keyed by (case id, problem name)"""
+    import shutil
+    import subprocess
+    casesB, override = [], {}
+    for k, (A, B) in enumerate(SAVE_PAIRS):
+        d = ctx.path(f"savepair{k}")
+        shutil.rmtree(d, ignore_errors=True)
+        save = os.path.join(d, "save")
+        os.makedirs(save)
+        for tag, t in (("A", A), ("B", B)):
+            td = os.path.join(d, tag)
+            os.makedirs(td)
+            paths = []
+            for key, fn in (("spec", "s.spec"), ("left", "a.lp"), ("right", "b.lp"), ("ug", "u.ug")):
+                if key in t:
+                    with open(os.path.join(td, fn), "w") as fh:
+                        fh.write(t[key])
+                    paths.append(os.path.join(td, fn))
+            r = subprocess.run([V.ANTHEM, "verify", "--equivalence", t["task"], "--decomposition", "independent", "--direction", "universal",
+                                "--no-proof-search", "--save-problems", save] + paths, stdout=subprocess.PIPE, stderr=subprocess.PIPE, text=True, timeout=120)
+            if r.returncode != 0:
+                raise V.ToolError(f"save pair {k}{tag} is not accepted by anthem: {r.stderr[-300:]}")
+        cid = f"savepair{k}"
+        casesB.append(dict(B, id=cid, flagsets=[DEFAULT_FLAGS]))
+        for fn in os.listdir(save):
+            if fn.endswith(".p"):
+                override[(cid, fn[:-2])] = open(os.path.join(save, fn), encoding="utf-8", errors="replace").read()
+        shutil.rmtree(d, ignore_errors=True)
+    return casesB, override
+
+
+def problem_records(ctx, cases, strong_ids=None, override=None):
+    """run tasks through the hook, read every emitted problem TEXT back; returns (records, violations, stats).
+    override: (case id, problem name) -> the text of the FILE that --save-problems left on disk; it is judged instead of the in-memory text"""
     for c in cases:
         c["with_text"] = True
     recs = V.run_harness(ctx, "problems", cases)
@@ -157,6 +204,16 @@ def problem_records(ctx, cases, strong_ids=None):
                 st["refused"] += 1
                 continue
             for p in fm["problems"]:
+                if override is not None:
+                    disk = override.get((r["id"], p["name"]))
+                    if disk is None:
+                        violations.append({"check": ctx.prop + ".problem_file_written", "text": r["text"],
+                                           "detail": f"problem {p['name']} was emitted but no file of that name was saved", "record": {"task": r["text"], "problem": p["name"]}})
+                        continue
+                    st["saved_files_compared"] = st.get("saved_files_compared", 0) + 1
+                    if disk != p["text"]:
+                        st["saved_files_differing"] = st.get("saved_files_differing", 0) + 1
+                    p = dict(p, text=disk, name=p["name"] + "@disk")
                 if p["text"] in seen_text:
                     continue
                 seen_text.add(p["text"])
@@ -252,6 +309,7 @@ def finish_problems(ctx, prefix, cases, usable, skipped, violations, st, verdict
         "states": max(ctx.tlc_distinct, 1), "transitions": max(ctx.tlc_states, 1), "traces_validated_against_impl": len(usable),
         "evaluations": max(stats["verdicts"], 1), "distinct_nontrivial": len(usable),
         "tasks": st["tasks"], "task_families_refused": st["refused"], "distinct_problem_texts": st["problems"],
+        "saved_files_compared_after_second_run": st.get("saved_files_compared", 0), "saved_files_differing_from_memory": st.get("saved_files_differing", 0),
         "syntax_rejected_by_both_readers": st["syntax_rejected"], "reader_stricter_than_tptp4X": st["reader_stricter"],
         "verdicts_by_check": by_check, "skipped": skipped, "unknown_evaluations": stats["unknown"], "rule": rule,
         "samples": [{"problem": r["text"], "text_head": r["problem_text"][-700:]} for r in usable[:2]], "exhaustive": False,
@@ -306,6 +364,14 @@ def run_C09(ctx):
     usable, skipped = param_problems(ctx, recs)
     if q and len(usable) > 420:
         usable = usable[:: max(1, len(usable) // 420)]
+    # the FILES of --save-problems after a second run into the same directory are judged like the in-memory texts
+    casesB, override = saved_overrides(ctx)
+    recs2, viol2, st2 = problem_records(ctx, casesB, override=override)
+    u2, _ = param_problems(ctx, recs2)
+    usable += u2
+    violations += viol2
+    st["saved_files_compared"] = st2.get("saved_files_compared", 0)
+    st["saved_files_differing"] = st2.get("saved_files_differing", 0)
     verdicts = V.tlc_validate(ctx, "TraceSem", usable, {"VERIF_HTCAP": 4, "VERIF_CLCAP": 8})
     return finish_problems(ctx, "C09", cases, usable, skipped, violations, st, verdicts,
                            "tasks derived by TLC from an adversarial identifier pool (spec/Gen.tla mode ident: names with leading underscore, sort "
